@@ -51,6 +51,7 @@ type Run struct {
 	start      time.Time
 	minCount   map[string]int
 	NoEvidence bool
+	Quiet      bool // no output; the first report lines are returned in Summary.FirstLines
 }
 
 var procStart = time.Now()
@@ -164,6 +165,7 @@ type Summary struct {
 	KnownN      int
 	Violations  int
 	Exit        int
+	FirstLines  []string
 }
 
 // Finish sorts, applies non-vacuity minimums, matches known findings, writes
@@ -247,9 +249,13 @@ func (r *Run) Finish(verifDir string, extra map[string]any) Summary {
 			path := filepath.Join(replayDir, fmt.Sprintf("%s-%d.json", r.Prop, s.Violations))
 			b, _ := json.MarshalIndent(map[string]any{"property": r.Prop, "kind": o.Verdict, "obligation": o}, "", " ")
 			os.WriteFile(path, b, 0o644)
-			fmt.Printf("%s %s %s at %s: %s\n", strings.ToUpper(o.Verdict), o.Rule, o.Construct, o.Pos, o.Detail)
-			for _, w := range o.Witness {
-				fmt.Printf("    %s\n", w)
+			if r.Quiet {
+				s.FirstLines = append(s.FirstLines, fmt.Sprintf("%s %s %s at %s: %s", strings.ToUpper(o.Verdict), o.Rule, o.Construct, o.Pos, o.Detail))
+			} else {
+				fmt.Printf("%s %s %s at %s: %s\n", strings.ToUpper(o.Verdict), o.Rule, o.Construct, o.Pos, o.Detail)
+				for _, w := range o.Witness {
+					fmt.Printf("    %s\n", w)
+				}
 			}
 			lines = append(lines, fmt.Sprintf("VIOLATION property=%s replay=%s", r.Prop, path))
 		}
@@ -331,10 +337,12 @@ func (r *Run) Finish(verifDir string, extra map[string]any) Summary {
 		fmt.Fprintf(os.Stderr, "verifsa: cannot write evidence: %v\n", err)
 		return Summary{Exit: 2}
 	}
-	fmt.Printf("verifsa %s %s: %d obligations, %d discharged, %d known findings, %d violations, %d functions (%.1fs)\n",
-		r.Prop, r.Tier, s.Obligations, s.Discharged, s.KnownN, s.Violations, len(funcs), wall)
-	for _, l := range lines {
-		fmt.Println(l)
+	if !r.Quiet {
+		fmt.Printf("verifsa %s %s: %d obligations, %d discharged, %d known findings, %d violations, %d functions (%.1fs)\n",
+			r.Prop, r.Tier, s.Obligations, s.Discharged, s.KnownN, s.Violations, len(funcs), wall)
+		for _, l := range lines {
+			fmt.Println(l)
+		}
 	}
 	if s.Violations > 0 {
 		s.Exit = 1
